@@ -157,6 +157,15 @@ theorem unguarded_folds_known : unguardedFoldsKnown Gen.unguardedFolds = true :=
 example : foldSitesOk [("name_check_visitor.py", "NameCheckVisitor._visit_single_formatted_value", ["TypeError", "ValueError"])] = false := by decide
 example : foldSitesPresent [] = false := by decide
 
+/-- **Regenerated obligation**: the %-template pattern is the pinned one. The parsers of the two template
+mini-languages are modelled in C17 (`Core/Format.lean`: the scanner / parse functions are total by
+construction, and C17's correspondence compares them with `format_strings.py`); what C12 adds is the search —
+templates generated from the *grammars* of %-format and str.format (every optional part, every conversion, str
+and bytes, matching and non-matching arguments) must check without an exception — and this pin: an edit of the
+pattern (e.g. allowing an empty precision, which makes `int(precision[1:])` raise) breaks it and triggers the
+widened search. -/
+theorem format_regex_pinned : Gen.formatStringRegex = pinnedFormatRegex := by rfl
+
 /-! ## 2. diagnostics are well-formed (`BaseNodeVisitor.show_error`) -/
 
 /-- The live registry has a non-empty description for every code and contains the two codes the
